@@ -54,3 +54,14 @@ package odt
 //@   ensures handle_released: !isnil(old(r.zipReader)) ==> closed == 1
 //@   ensures nothing_left_to_close: isnil(r.zipReader)
 //@   ensures second_close_is_a_no_op: isnil(old(r.zipReader)) ==> closed == 0 && !err
+
+// ---- C15: a cell merged over rows AND columns covers all of its columns in the rows below ----
+// (the ODT reader ignores covered-table-cell elements: this bookkeeping alone decides where the cells of the
+// following rows land; rowSpansRemaining[c] = rows still to be covered in column c)
+//@ func (*TableParser) processRowSpans
+//@   property C15
+//@   flags nosafety
+//@   loop 3:
+//@     step a_row_spanning_cell_covers_all_its_columns_below: cell.RowSpan > 1 && cell.ColSpan >= 1 ==> forall k int :: {rowSpansRemaining[k]} colIdx - cell.ColSpan <= k && k < colIdx && k < colCount ==> rowSpansRemaining[k] == cell.RowSpan - 1
+//@   loop 5:
+//@     invariant 0 <= c && len(rowSpansRemaining) == entry(len(rowSpansRemaining)) && forall k int :: {rowSpansRemaining[k]} colIdx <= k && k < colIdx + c && k < colCount ==> rowSpansRemaining[k] == cell.RowSpan - 1
